@@ -309,13 +309,17 @@ def dump_one(
         raise PrepareDumpError(
             "Uncaught exception while preparing for dumping to a file.", filename
         ) from exc
-    with open(filename, "w") as f:
-        try:
+    # The file is opened outside the try block, so the operating system's own error is raised
+    # when the target cannot be opened. Errors that only surface when the file is flushed
+    # and closed (e.g. a full disk) are write failures and must become a DumpError.
+    f = open(filename, "w")  # noqa: SIM115
+    try:
+        with f:
             format_module.dump_one(f, data, **kwargs)
-        except DumpError:
-            raise
-        except Exception as exc:
-            raise DumpError("Uncaught exception while dumping to a file", filename) from exc
+    except DumpError:
+        raise
+    except Exception as exc:
+        raise DumpError("Uncaught exception while dumping to a file", filename) from exc
     return data
 
 
@@ -398,13 +402,15 @@ def dump_many(
                 else other
             )
 
-    with open(filename, "w") as f:
-        try:
+    # See dump_one: errors raised while flushing and closing the file are also DumpErrors.
+    f = open(filename, "w")  # noqa: SIM115
+    try:
+        with f:
             format_module.dump_many(f, checking_iterator(), **kwargs)
-        except (PrepareDumpError, DumpError):
-            raise
-        except Exception as exc:
-            raise DumpError("Uncaught exception while dumping to a file.", filename) from exc
+    except (PrepareDumpError, DumpError):
+        raise
+    except Exception as exc:
+        raise DumpError("Uncaught exception while dumping to a file.", filename) from exc
 
 
 @_reissue_warnings
@@ -440,10 +446,10 @@ def write_input(
 
     """
     input_module = _select_input_module(filename, fmt)
-    with open(filename, "w") as fh:
-        try:
+    # See dump_one: errors raised while flushing and closing the file are also WriteInputErrors.
+    fh = open(filename, "w")  # noqa: SIM115
+    try:
+        with fh:
             input_module.write_input(fh, data, template, atom_line, **kwargs)
-        except Exception as exc:
-            raise WriteInputError(
-                "Uncaught exception while writing an input file.", filename
-            ) from exc
+    except Exception as exc:
+        raise WriteInputError("Uncaught exception while writing an input file.", filename) from exc
